@@ -1,3 +1,4 @@
+\* base configuration: tools/checks/c16.py sweeps NSubs/MinLen/MaxLen/Modes/Styles/bounds by appending CONSTANTS
 SPECIFICATION Spec
 CONSTANTS
   NSubs = 2
